@@ -117,6 +117,7 @@ def run(res, tier, seed):
     vlib.log('arena part %.1fs' % (time.time() - t0)); t0 = time.time()
     # ---- isolation
     schedlib.run_scenarios(res, 'C16', 'isolate', 60 if not thorough else 1500, seed)
+    schedlib.run_scenarios(res, 'C16', 'isolate2', 60 if not thorough else 1500, seed)
     vlib.log('isolation part %.1fs' % (time.time() - t0))
     res.extra.update({'arena_executions': tot.get('paths', 0), 'arena_real_steps': tot.get('steps', 0), 'worker_threads_scheduled': tot.get('workers', 0), 'arena_shapes': len(shapes)})
     res.exhaustive = False
